@@ -107,6 +107,10 @@ def run_variant(src, hier, contract, method, variant, both=False, repo_qual=None
         for a, d in zip(args.kwonlyargs, args.kw_defaults):
             if d is not None:
                 defaults[a.arg] = d
+        if args.kwarg is not None and args.kwarg.arg not in env:
+            from .engine import KwArgsV
+            from .values import OpaqueV
+            env[args.kwarg.arg] = KwArgsV({}, OpaqueV('further-keyword-arguments'))
         st.env = env
         for nme, d in defaults.items():
             if nme not in env:
@@ -128,7 +132,7 @@ def run_variant(src, hier, contract, method, variant, both=False, repo_qual=None
                 return res
             st.pc.append(rq)
         # vacuity guard on the precondition
-        r, _ = smt.check_sat(eng.axioms() + smt.FOLDS.all_instances() + st.pc, timeout_ms=5000)
+        r, _ = smt.check_sat(eng.axioms() + smt.FOLDS.all_instances() + st.pc, timeout_ms=getattr(eng.ctx, 'feas_timeout_ms', 5000))
         if r == 'unsat':
             res.status = 'fault'
             res.reason = 'precondition of %s is unsatisfiable (vacuous)' % eng.qual
@@ -150,7 +154,8 @@ def run_variant(src, hier, contract, method, variant, both=False, repo_qual=None
                     eng.oblige('post[%s#%d]:%s' % (o.kind, idx, name), o.st, goal, 'post')
             # cover: the path is reachable (no vacuous pass)
             res.covers += 1
-            r, _ = smt.check_sat(eng.base_axioms + AX.items + smt.FOLDS.all_instances() + o.st.pc, timeout_ms=3000)
+            r, _ = smt.check_sat(eng.base_axioms + AX.items + smt.FOLDS.all_instances() + o.st.pc,
+                                 timeout_ms=getattr(eng.ctx, 'feas_timeout_ms', 3000))
             if r != 'unsat':
                 res.cover_sat += 1
         if res.cover_sat == 0:
